@@ -157,6 +157,20 @@ func runReplayFile(path string) int {
 		o.repoDir = d
 	}
 	p := &Prog{}
+	if rep.Recipe == nil && rep.Known != nil {
+		// a witness recorded with an earlier finding about the same obligation
+		still, detail := p.replayKnown(o, KnownFinding{ID: "recorded", Replay: rep.Known})
+		if strings.HasPrefix(detail, "replay failed to run") || strings.HasPrefix(detail, "replay returned no") {
+			fmt.Println("replay failed to run:", detail)
+			return 2
+		}
+		if still {
+			fmt.Println("VIOLATED:", detail)
+			return 1
+		}
+		fmt.Println("holds:", detail)
+		return 0
+	}
 	if rep.Recipe == nil {
 		fmt.Printf("replay file for %s / %s carries no executable recipe (the failed obligation and the solver output are in the file)\n", rep.Property, rep.Obligation)
 		return 0
